@@ -17,7 +17,7 @@ TEXTS = {
 WORDLIKE = {"TERM", "AND_OP", "OR_OP", "NOT", "TO"}
 #: texts that probe token boundaries and the reserved-word rule: escapes, lower / mixed case and embedded reserved words, phrases and
 #: regexes that contain operators, quotes or end in an escaped backslash
-TRICKY = {"TERM": ["and", "Or", "nOT", "to", "ANDROID", "NOTE", "TOTO", "\\AND", "a\\:b", "te?t*", "x\\ y", "2015-12-19T10:30", "b\\\\", "OR1", "\\-z", "k\\(l\\)"],
+TRICKY = {"TERM": ["and", "Or", "nOT", "to", "ANDROID", "NOTE", "TOTO", "\\AND", "a\\:b", "te?t*", "x\\ y", "2015-12-19T10:30", "b\\\\", "OR1", "\\-z", "k\\(l\\)", "z\\ ", "C\\:\\\\Program\\ "],
           "PHRASE": ['"a\\\\"', '"x \\" y"', '"AND"', '"a:b (c) OR"', '""', '"\\\\\\""'],
           "REGEX": ["/a\\\\/", "/x\\/y/", "/[a-z]+ OR (b)/", "//"]}
 
